@@ -94,6 +94,13 @@ OuterT == Struct(N_Outer, <<PointT, Tuple(<<S_, Sc("b")>>), Map(S_, EntryT)>>, <
 TplT == Struct(N_Template, <<Sc("d"), Sc("d")>>, <<F_x, F_y>>)
 EmptyT == Struct(N_Empty, <<>>, <<>>)
 KeyedT == Struct(N_Keyed, <<I_, S_, List(Sc("b"))>>, <<F_type, F_string, F_range>>)
+\* structures that occur in ONE position only: as a map key, as a list element, as a tuple member
+N_OnlyKey == <<"O","n","l","y","K","e","y">>
+N_OnlyElem == <<"O","n","l","y","E","l","e","m">>
+N_OnlyMember == <<"O","n","l","y","M","e","m","b","e","r">>
+OnlyKeyT == Struct(N_OnlyKey, <<I_, S_>>, <<F_x, F_y>>)
+OnlyElemT == Struct(N_OnlyElem, <<S_>>, <<F_name>>)
+OnlyMemberT == Struct(N_OnlyMember, <<Sc("b")>>, <<F_x>>)
 
 (***************************************************************************)
 (* Pools.  Parameter names include Go keywords and names the generators     *)
@@ -136,6 +143,8 @@ PoolB ==
         Method(300, "deep", <<Prm("buf", List(Map(I_, List(Tuple(<<PointT, List(EntryT)>>)))))>>,
                Map(Sc("L"), Map(S_, List(TplT))), "plain"),
         Method(301, "Deep", <<Prm("c", Map(Sc("b"), Sc("d")))>>, Void, "plain"),     \* same name, other case
+        Method(307, "positions", <<Prm("byKey", Map(OnlyKeyT, List(OnlyElemT)))>>,
+               List(Map(S_, Tuple(<<OnlyMemberT, I_>>))), "plain"),
         Signal(302, "scalars", [k \in 1..15 |-> Prm("P" \o ToString(k - 1), Sc(ScalarSeq[k]))], FALSE, "plain"),
         Signal(86, "traceObject", <<Prm("P0", OuterT)>>, FALSE, "plain"),
         Property(303, "table", <<Prm("P0", Map(S_, List(PointT)))>>, FALSE, "plain"),
